@@ -16,10 +16,10 @@ pub const DEF: PropDef = PropDef {
     exhaustive: true,
 };
 
-pub const PRELUDE: &str = "put mysterious into vm\nput null into vn\nput true into vb\nput 0 into vz\nput 1.5 into vf\nput -1 into vg\nput 1e30 into vh\nput 0 over 0 into vx\nput \"\" into se\nput \"abc\" into sa\nput \"12\" into sn\nput 55296 into vs\nput \"a😀😀😀😀😀😀😀😀😀😀😀😀😀😀😀😀😀😀😀😀😀😀😀😀😀😀😀😀😀😀😀😀😀😀😀😀😀😀😀😀😀😀😀😀😀😀😀😀😀😀😀😀😀😀😀😀😀😀😀😀😀😀😀😀😀😀😀😀😀😀\" into sl\nrock ae\nrock ar with 1, \"s\"\nfun takes k\ngive back k\n\nGun takes k\ngive back k\n\nlet ad at \"k\" be 1\n";
+pub const PRELUDE: &str = "put mysterious into vm\nput null into vn\nput true into vb\nput 0 into vz\nput 1.5 into vf\nput -1 into vg\nput 1e30 into vh\nput 0 over 0 into vx\nput \"\" into se\nput \"abc\" into sa\nput \"12\" into sn\nput 55296 into vs\nput \"a😀😀😀😀😀😀😀😀😀😀😀😀😀😀😀😀😀😀😀😀😀😀😀😀😀😀😀😀😀😀😀😀😀😀😀😀😀😀😀😀😀😀😀😀😀😀😀😀😀😀😀😀😀😀😀😀😀😀😀😀😀😀😀😀😀😀😀😀😀😀\" into sl\nrock ae\nrock ar with 1, \"s\"\nfun takes k\ngive back k\n\nGun takes k\ngive back k\n\nlet ad at \"k\" be 1\nlet dv at \"k\" be \"v\"\nlet dv at \"j\" be \"w\"\nrock mx with \"s\"\nlet mx at \"k\" be \"v\"\nrock nn with ar, ae\nrock ll with \"a\", \"b\", \"c\", \"d\", \"e\", \"f\", \"g\", \"h\", \"i\", \"j\", \"k\", \"l\", \"m\", \"n\", \"o\", \"p\", \"q\"\n";
 pub const NO_REFERENT: &str = "if vb\nsay 0\n\n";
 
-pub const FILLERS: &[&str] = &["vm", "vn", "vb", "vz", "vf", "vg", "vh", "vx", "se", "sa", "sn", "ae", "ar", "ad", "fun", "nev", "it", "5", "\"lit\"", "mysterious", "fun taking ar", "roll ar", "ar at 0", "ar at 1e30", "ad at vh", "Qux Zed", "Gun", "gun", "vs", "sl"];
+pub const FILLERS: &[&str] = &["vm", "vn", "vb", "vz", "vf", "vg", "vh", "vx", "se", "sa", "sn", "ae", "ar", "ad", "fun", "nev", "it", "5", "\"lit\"", "mysterious", "fun taking ar", "roll ar", "ar at 0", "ar at 1e30", "ad at vh", "Qux Zed", "Gun", "gun", "vs", "sl", "dv", "mx", "nn", "ll"];
 
 pub const TEMPLATES: &[&str] = &[
     "put A into B\n",
